@@ -291,12 +291,12 @@ def ext_record(typeflag, payload, declared=None):
     return mk_header(b"././@LongLink" if typeflag in b"LK" else b"pax", size, typeflag) + payload + b"\0" * ((-len(payload)) % 512)
 
 
-def tar_size_gate(rng, limits):
+def tar_size_gate(rng, limits, kind=None, delta=None):
     """an 'L' / 'K' / 'x' extension record whose declared size is around the implementation limit, *with all its data
     present*, followed by the member it describes and a marker member.  Returns (data, must_reject)"""
-    kind = rng.choice(["L", "K", "x", "x"])
+    kind = kind or rng.choice(["L", "K", "x", "x"])
     lim = limits[kind]
-    S = max(1, lim + rng.choice([-512, -1, 0, 0, 1, 1, 2, 511, 512, 513, 4096, lim, 3 * lim]))
+    S = max(1, lim + (rng.choice([-512, -1, 0, 0, 1, 1, 2, 511, 512, 513, 4096, lim, 3 * lim]) if delta is None else delta))
     if kind == "x":
         payload = pax_rec_of_size(S) or pax_rec(b"comment", b"c")
         S = len(payload)
@@ -442,6 +442,12 @@ PACK_KEYWORD_LINES = {
     "glob": ("glob /kg 0755 0 0 -type f", "input"),
     "glob2": ("glob /kg2 * * *", "input/sub"),
     "glob3": ("glob /kg3 0755 1 2 -name \"*.txt\" --", "."),
+    # options that want an argument, as the last token of the line
+    "glob-name": ("glob /kg4 0755 0 0 -name", "\"*.txt\" input"),
+    "glob-type": ("glob /kg5 0755 0 0 -type", "f input"),
+    "glob-path": ("glob /kg6 0755 0 0 -type d -path", "\"*/sub\" input"),
+    "glob-dd": ("glob /kg7 0755 0 0 --", "input"),
+    "glob-bad": ("glob /kg8 0755 0 0 -bogus", "input"),
 }
 GEN_MODES = ("D", "nodir", "slashdir", "D-rel")
 
